@@ -52,7 +52,7 @@ func c13paths() []c13path {
 				for q := int32(0); q <= 2; q++ {
 					for _, r := range []bool{false, true} {
 						for _, mp := range []string{"", "m1"} {
-							for _, c := range []string{"disconnect", "drop", "keepalive", "protocol-error", "leave", "disconnect-then-leave-reordered-gossip", "leave-detected-500ms-apart", "disconnect-removal-lost-fullstate-then-leave", "drop-while-other-nodes-unreachable", "connect-answer-lost", "malformed-packet"} {
+							for _, c := range []string{"disconnect", "drop", "keepalive", "protocol-error", "leave", "disconnect-then-leave-reordered-gossip", "leave-detected-500ms-apart", "disconnect-removal-lost-fullstate-then-leave", "drop-while-other-nodes-unreachable", "connect-answer-lost", "malformed-packet", "disconnect-reconnect-in-one-gossip-round-then-leave"} {
 								if strings.Contains(c, "leave") && (n == 1 || (len(ws) == 1 && ws[0] == 1)) {
 									continue
 								}
@@ -168,6 +168,20 @@ func TestC13Wills(t *testing.T) {
 					w.Idle(6 * time.Second)
 				case "protocol-error":
 					d.SendRaw(EncodeConnect(&packet.Connect{Header: &packet.Header{}, ClientId: []byte("dying"), KeepaliveTimer: 2, Clean: true}))
+				case "disconnect-reconnect-in-one-gossip-round-then-leave":
+					// a clean DISCONNECT and a new connection under the same client identifier (no will this time) on the same
+					// node before the node's transmit queue is drained: both records travel in the queue's own order. The node
+					// then fails: the first session's will was cancelled by its DISCONNECT and must not be published
+					w.GossipLazy = true
+					d.Disconnect()
+					w.Step()
+					again := w.NewClient("dying-again", 1, AckAll)
+					again.Connect(ConnectOpts{ClientID: "dying", KeepAlive: 600, User: user})
+					w.Step()
+					w.GossipLazy = false
+					w.PumpGossip()
+					w.Step()
+					w.Leave(1)
 				case "malformed-packet":
 					// a SUBSCRIBE whose announced body is empty: the packet decoder runs off the end of the buffer
 					d.SendRaw([]byte{0x82, 0x00})
